@@ -168,7 +168,7 @@ PROPS = {
         partial=['Props/MachineStructure.lean proves on the whole machine, for every program and every number of steps, that a condition object keeps its class and operands (condition_shape_forever, connective_children_forever, inverse_forever) and that the listeners of a tracked value / resource level are never dropped or reordered (tracked_listeners_append_only, resource_listeners_append_only); truth_at_resume and no-lost-wake-up are not proved on the machine: judge + correspondence only (F8: false for nested connectives)'],
     ),
     'C14': dict(
-        gen=['Ticker', 'Timing'], props=['C14', 'Skeletons'], model=['Machine/Run', 'Judge/Judges'], harness='c14',
+        gen=['Ticker', 'Timing'], props=['C14', 'MachineTicker', 'Skeletons'], model=['Machine/Run', 'Judge/Judges'], harness='c14',
         trusted_base=KERNEL_TB + MACHINE_TB + ['translated from source: the step arithmetic and branch order of interval(); template: delay(), suspend/postpone'],
         assumptions=['suspend(d) resumes at now + d and postpone() in the same time step (C01 theorems)', 'exact rational time'],
         partial=[],
@@ -390,7 +390,7 @@ MANIFEST_TEXT = {
         technique='Lean 4 theorems (decision logic / per-primitive / frame level) + exact whole-machine differential traces + Lean trace judge',
         design_ref='6 (C08), 3, 4.B'),
     'C14': dict(
-        level='Lean 4 theorems over the step arithmetic of interval()/delay() translated from timing.py on every run: '
+        level='The machines ticker is the translated step function, for every world (Props/MachineTicker.lean: tickNext_interval, tickNext_delay): the grid theorems below are theorems about the machine that is compared with the code. Lean 4 theorems over the step arithmetic of interval()/delay() translated from timing.py on every run: '
               'interval_exceeded_iff, interval_next_tick, interval_grid (tick k at start + k*p for every sequence of body durations '
               '<= p, by induction), interval_first_tick, delay_gap, every non-raising step hibernates (yields), negative_rejected. '
               'Exact whole-machine correspondence on ticker programs (periods incl. 0, durations shorter/equal/longer, nested in '
